@@ -40,7 +40,8 @@ func VerifC19_SimOracle() {
 	if err := pt.Add(entries...); err != nil {
 		panic(err)
 	}
-	if sym.Bool("symbolic-scaled-powers") {
+	symbolicPowers := sym.Bool("symbolic-scaled-powers")
+	if symbolicPowers {
 		// representation invariant of a power table: scaled powers in [0,65535]
 		// summing to ScaledTotal in [1,65535]; the values themselves are arbitrary
 		var total int64
@@ -101,6 +102,24 @@ func VerifC19_SimOracle() {
 		sig = sym.Bytes("forged-signature", 32)
 	}
 	decision := &gpbft.Justification{Vote: vote, Signers: bitfield.NewFromSet(signerIdx), Signature: sig}
+	// optionally another participant has already reported a genuine decision
+	// (for the chain that extends the base): the oracle must judge every
+	// reported decision on its own
+	if !symbolicPowers && sym.Bool("after-a-genuine-decision") {
+		var gIdx []uint64
+		var gMask []int
+		for i := 0; i < n; i++ {
+			if pt.ScaledPower[i] > 0 {
+				gIdx = append(gIdx, uint64(i))
+				gMask = append(gMask, i)
+			}
+		}
+		gv := gpbft.Payload{Instance: inst.Instance, Phase: gpbft.DECIDE_PHASE, SupplementalData: *inst.SupplementalData, Value: gpbft.VerifChain(10, 1, 2, 3)}
+		ec.NotifyDecision(2, &gpbft.Justification{Vote: gv, Signers: bitfield.NewFromSet(gIdx),
+			Signature: gpbft.VerifAggregateSig(entries.PublicKeys(), gMask, gv.MarshalForSigning(nn))})
+		sym.Assert(ec.Err() == nil, "a genuine decision is not reported as an error")
+		sym.Cover("after-genuine")
+	}
 	panicked := false
 	func() {
 		defer func() {
